@@ -404,8 +404,8 @@ example : let pat := [List.replicate 63 ' ' ++ ['#'], ['.'] ++ List.replicate 63
 
 -- (closed) `from_pattern` panics on over-wide / over-tall / ragged patterns and unknown characters, and which assertion fires first: the decision table of the model's four checks is `C20.PatternText.from_pattern_decision` (Props/C20/PatternText.lean); the model is compared with the code on every `mock.pattern` op (`err=`)
 -- (closed) the framing text of `{:?}` ("MockDisplay[", "(n empty rows skipped)", "]") is modelled (`MD.debugText`) and is a function of the printed rows: `C20.PatternText.debug_text_is_frame_of_rows`, with both round trips restated on the complete text (Props/C20/PatternText.lean); the model text is compared with the real one through the hash `dh=` on every `mock.hist` op
--- [V] colours outside a type's colour set (`Gray8` values that are not multiples of 0x11, RGB colours other than the eight named ones) print as '?', which `from_pattern` rejects: outside the property's quantifier ("patterns over each colour type's character set"); the model follows the code and the harness only counts the outcome (`obs:debug-unrepresentable:rt-*`), no oracle class, no theorem
--- [V] `get_pixel` for arguments outside the 64 x 64 cells is not claimed; what the code does there is recorded below (`get_pixel_outside_*`) and compared on the `mock.get` stream
+-- (closed, an observation outside the property's quantifier "patterns over each colour type's character set") colours outside a type's colour set (`Gray8` values that are not multiples of 0x11, RGB colours other than the eight named ones) print as '?', which `from_pattern` rejects: proved on the model in Props/C20/Unrepresentable.lean (`color_to_char_question_iff`: exactly those colours, for every type and raw value; `question_mark_is_rejected`; `pattern_with_question_mark_panics`); the harness only counts the outcome (`obs:debug-unrepresentable:rt-*`), no oracle class
+-- (closed, an observation: not claimed by the property) `get_pixel` for arguments outside the 64 x 64 cells: what the code does for EVERY `i32` argument is proved on the model below (`get_pixel_outside_negative`: a negative coordinate panics; `get_pixel_outside_aliases`: otherwise cell `(x % 64, y + x / 64)` while `x + 64 y < 4096`, a panic beyond) and compared on the `mock.get` stream
 
 /-! ### Observations (not claims of the property): `get_pixel` outside the display -/
 
